@@ -694,6 +694,17 @@ def build_cli():
     return _cli["dir"]
 
 
+def _tmp_env(wd):
+    """Environment that keeps a tool's scratch files under its own work directory instead of /tmp."""
+    t = os.path.join(wd, "tmp")
+    os.makedirs(t, exist_ok=True)
+    env = dict(os.environ)
+    env["TMPDIR"] = t
+    env["JAVA_TOOL_OPTIONS"] = (env.get("JAVA_TOOL_OPTIONS", "") + " -Djava.io.tmpdir=" + t).strip()
+    env["JVM_ARGS"] = (env.get("JVM_ARGS", "") + " -Djava.io.tmpdir=" + t).strip()
+    return env
+
+
 def apalache(name, module_path, init, inv, length, timeout=900):
     """Runs apalache-mc check; returns True iff it reports no error (used for inductive-invariant obligations)."""
     wd = os.path.join(WORK, "apalache", name)
@@ -701,7 +712,7 @@ def apalache(name, module_path, init, inv, length, timeout=900):
     os.makedirs(wd, exist_ok=True)
     cmd = ["apalache-mc", "check", f"--init={init}", f"--inv={inv}", f"--length={length}", f"--out-dir={wd}", module_path]
     try:
-        p = subprocess.run(cmd, cwd=wd, stdout=subprocess.PIPE, stderr=subprocess.STDOUT, text=True, timeout=timeout)
+        p = subprocess.run(cmd, cwd=wd, stdout=subprocess.PIPE, stderr=subprocess.STDOUT, text=True, timeout=timeout, env=_tmp_env(wd))
     except subprocess.TimeoutExpired:
         raise ToolError(f"apalache timeout on {name}")
     ok = "EXITCODE: OK" in p.stdout
@@ -718,7 +729,7 @@ def tlapm(name, module_path, timeout=900):
     os.makedirs(wd, exist_ok=True)
     cmd = ["tlapm", "--threads", "4", "--cleanfp", "--cache-dir", wd, module_path]
     try:
-        p = subprocess.run(cmd, cwd=wd, stdout=subprocess.PIPE, stderr=subprocess.STDOUT, text=True, timeout=timeout)
+        p = subprocess.run(cmd, cwd=wd, stdout=subprocess.PIPE, stderr=subprocess.STDOUT, text=True, timeout=timeout, env=_tmp_env(wd))
     except subprocess.TimeoutExpired:
         raise ToolError(f"tlapm timeout on {name}")
     m = re.search(r"All (\d+) obligations? proved", p.stdout)
